@@ -175,7 +175,7 @@ def run_case(case):
     import qexpy as q
     q.reset_correlations()
     keep = run_prelude(q, case)             # an earlier session whose objects and records stay alive  # noqa: F841
-    objs = [sl.build(qj) for qj in case["table"]]
+    objs = sl.build_table(case["table"], case.get("aliasing"))
     desc = describe(objs, case["table"])
     m0 = read_matrix(q, objs)
     hist = []
@@ -482,6 +482,8 @@ def gen_case(rng):
         m.apply(op)
         ops.append(op)
     case.update({"table": table, "ops": ops})
+    if any(qj[0] == "repeated" for qj in table) and rng.random() < 0.35:
+        case["aliasing"] = rng.choice(["mutate", "buffer"])      # the caller's arrays are re-used / modified after recording
     return case
 
 
@@ -663,6 +665,9 @@ def correspondence(ctx):
         if i < n_random:
             if case.get("prelude"):
                 res.count("session:after an earlier session that was not reset")
+            if case.get("aliasing"):
+                res.count("session:caller-side containers " + ("re-used as one buffer and modified" if case["aliasing"] == "buffer"
+                                                                else "modified after recording"))
             for qj in case["table"]:
                 o = qj[-1] if isinstance(qj[-1], dict) else {}
                 for key in ("name", "via", "etype"):
@@ -682,7 +687,8 @@ def correspondence(ctx):
                 "int64 / int32 scalar of either sign and zero, getters, reset_correlations, .error (float / numpy / Fraction / int) and .value writes, reading / printing a quantity, the same "
                 "call offered twice; 30% of the sessions follow an earlier, not reset session whose quantities share values, readings "
                 "and names with those of the case; twins (distinct objects with equal value / uncertainty / readings / name), "
-                "elements of a MeasurementArray) over 2-5 "
+                "elements of a MeasurementArray; in 35% of the sessions with repeated measurements the caller's reading / uncertainty "
+                "containers are modified in place after recording or one numpy buffer is re-used for several recordings) over 2-5 "
                 "quantities of individual magnitudes (x 2^-50 ... 2^20; single with / without error, repeated plain / collinear / with uncertainties / zero spread, calculated, "
                 "constant); ~70% of set requests aimed at acceptance, boundary requests exact in doubles, one ulp inside / outside; "
                 "after every call the outcome and the full matrix of q.get_correlation / q.get_covariance are compared with "
@@ -807,7 +813,7 @@ def _compare(got, exp, ref, what):
 
 def _check_case_oracle(q, case):
     keep = run_prelude(q, case)             # noqa: F841  (earlier session, kept alive, not reset)
-    objs = [sl.build(qj) for qj in case["table"]]
+    objs = sl.build_table(case["table"], case.get("aliasing"))
     ref = Ref(q, objs, case["table"])
     got, err = _matrix(q, objs)
     if err:
